@@ -69,6 +69,19 @@ Proof. exact (fun sets H => stable_yn_yes_not_rejected _ (not_stable sets H)). Q
 Theorem C06_not_composes : forall sets, Forall (Forall stable_yn) sets -> stable_yn (not_match sets).
 Proof. exact not_stable. Qed.
 
+(* MatcherSets.AnyMatch (the OR over a route's matcher sets): a set that still needs data stops the
+   evaluation, so a definite answer is permanent here too *)
+Theorem C06_anymatch_no_stable : forall sets, Forall (Forall stable_yn) sets -> no_stable (any_match sets).
+Proof. exact (fun sets H => stable_yn_no_stable _ (any_stable sets H)). Qed.
+Theorem C06_anymatch_fragments : forall sets, Forall (Forall stable_yn) sets -> yes_not_rejected_on_prefix (any_match sets).
+Proof. exact (fun sets H => stable_yn_yes_not_rejected _ (any_stable sets H)). Qed.
+(* an OR that skipped a set still waiting for data would reject a fragment of a stream that matches whole *)
+Example C06_anymatch_skipping_need_more_refuted :
+  let skipping p := match ssh_match p with Yes => Yes | _ => socks5_match [0%N] p end in
+  skipping (unhex "5353") = No /\ skipping (unhex "5353482d32") = Yes /\
+  any_match [[ssh_match]; [socks5_match [0%N]]] (unhex "5353") = More.
+Proof. vm_compute. repeat split; reflexivity. Qed.
+
 (* non-vacuity: verdict chains over the prefixes of one stream do go More -> No and More -> Yes *)
 Example C06_nonvacuous :
   map (fun n => ssh_match (firstn n (unhex "5353482d322e30"))) [0; 3; 4; 7]%nat = [More; More; Yes; Yes] /\
@@ -98,3 +111,5 @@ Print Assumptions C06_http_gate_no_stable.
 Print Assumptions C06_http_gate_fragments.
 Print Assumptions C06_not_no_stable.
 Print Assumptions C06_not_fragments.
+Print Assumptions C06_anymatch_no_stable.
+Print Assumptions C06_anymatch_fragments.
